@@ -8,7 +8,8 @@
     spqlios/coeffs/coeffs_arithmetic.c  rnx_divide_by_m_ref
     spqlios/coeffs/coeffs_arithmetic_avx.c  rnx_divide_by_m_avx
     spqlios/cplx/cplx_fftvec_avx2_fma.c cplx_fftvec_{add,sub2_to,copy,twiddle,bitwiddle}_fma
-    spqlios/cplx/cplx_fft_avx512.c      cplx_fftvec_{twiddle,bitwiddle}_avx512
+    spqlios/cplx/cplx_fft_avx512.c      cplx_fftvec_{twiddle,bitwiddle}_avx512 (as repaired by commits 7805316 / 36935af;
+                                        the kernels before the repair are kept as `…Avx512Old`, findings D8 / D9)
     spqlios/cplx/cplx_fft_ref.c         ctwiddle, citwiddle, cplx_twiddle_fft_ref, cplx_bitwiddle_fft_ref
 
   Conventions are those of `Spq/Reim4.lean`: a C `double*` is an `Array α` whose cell 0 is the pointee, reads
@@ -131,8 +132,8 @@ end F64c
 section cplx
 variable {α : Type}
 
-/-- `_mm256_shuffle_pd(a, a, 9)` (= one 256-bit half of `_mm512_shuffle_pd(a, a, 0b10011001)`):
-    the low pair is swapped, the high pair is left as it is -/
+/-- `_mm256_shuffle_pd(a, a, 9)` (= one 256-bit half of `_mm512_shuffle_pd(a, a, 0b10011001)`, the immediate of
+    `cplx_fftvec_twiddle_avx512` before its repair): the low pair is swapped, the high pair is left as it is -/
 @[inline] def shuf9 (a : V4 α) : V4 α := ⟨a.x1, a.x0, a.x2, a.x3⟩
 
 /-- number of ymm registers handled by `do { step ymm } while (aa < aa0 + total)` -/
@@ -176,9 +177,15 @@ def cplxFftvecTwiddleFma (ar : RArith α) (m : Nat) (a b om : Array α) : Array 
   cplxFftvecTwiddleSimd ar (ymmCount (m / 2) 4) V4.shuf5 a b om
 
 /-- `cplx_fftvec_twiddle_avx512`: 4 zmm (= 8 ymm) per step, `aend = aa + m/4` zmm;
-    `om = broadcast_f64x4(omg)`, and `bir = _mm512_shuffle_pd(bri, bri, 0b10011001)` which swaps only the
-    low pair of every 256-bit half (`shuf9`) -/
+    `om = broadcast_f64x4(omg)`, `omrr/omii = _mm512_shuffle_pd(om, om, 0x00 / 0xFF)` and
+    `bir = _mm512_shuffle_pd(bri, bri, 0b01010101)`: on every 256-bit half these are `shuffle 0 / 15 / 5`, i.e. each
+    zmm is two ymm of the AVX2 kernel -/
 def cplxFftvecTwiddleAvx512 (ar : RArith α) (m : Nat) (a b om : Array α) : Array α × Array α :=
+  cplxFftvecTwiddleSimd ar (2 * ymmCount (m / 4) 4) V4.shuf5 a b om
+
+/-- `cplx_fftvec_twiddle_avx512` BEFORE commit 7805316 (finding D8; not reachable from the driver):
+    `bir = _mm512_shuffle_pd(bri, bri, 0b10011001)` swapped only the low pair of every 256-bit half (`shuf9`) -/
+def cplxFftvecTwiddleAvx512Old (ar : RArith α) (m : Nat) (a b om : Array α) : Array α × Array α :=
   cplxFftvecTwiddleSimd ar (2 * ymmCount (m / 4) 4) shuf9 a b om
 
 /-- the register constants of one ymm of a bitwiddle kernel -/
@@ -226,8 +233,9 @@ def bitwCfgFma (o : V4 α) : BitwCfg α :=
   { sh := V4.shuf5, om1rr := V4.shuf0 o, om1ii := V4.shuf15 o, om2rr := V4.shuf0 o, om2ii := V4.shuf0 o,
     om3rr := V4.shuf15 o, om3ii := V4.shuf15 o }
 
-/-- constants of the upper 256-bit half of a zmm in `cplx_fftvec_bitwiddle_avx512`: the immediates 5 and 15
-    are 8-bit immediates of `_mm512_shuffle_pd` whose upper nibble is 0, i.e. `shuffle 0` on that half -/
+/-- constants of the upper 256-bit half of a zmm in `cplx_fftvec_bitwiddle_avx512` BEFORE commit 36935af (finding D9):
+    the immediates 5 and 15 were 8-bit immediates of `_mm512_shuffle_pd` whose upper nibble is 0, i.e. `shuffle 0`
+    on that half -/
 def bitwCfgAvx512Hi (o : V4 α) : BitwCfg α :=
   { sh := V4.shuf0, om1rr := V4.shuf0 o, om1ii := V4.shuf0 o, om2rr := V4.shuf0 o, om2ii := V4.shuf0 o,
     om3rr := V4.shuf0 o, om3ii := V4.shuf0 o }
@@ -240,8 +248,16 @@ def cplxFftvecBitwiddleFma (ar : RArith α) (m slicea : Nat) (a om : Array α) :
   mapV4x4 z (ymmCount (m / 2) 1) (4 * (slicea / 32)) (fun _ => bitwReg ar c) a
 
 /-- `cplx_fftvec_bitwiddle_avx512`: `OFFSET = slicea / sizeof(double[8])` zmm; 2 zmm per step,
-    `aend = aa + m/4` zmm; ymm `j` is the lower (`j` even) or upper (`j` odd) half of zmm `j/2` -/
+    `aend = aa + m/4` zmm.  All immediates are 8-bit (`0b01010101`, `0b11111111`, `0`), so both 256-bit halves of
+    a zmm carry the constants and the data shuffle of the AVX2 kernel (`bitwCfgFma`) -/
 def cplxFftvecBitwiddleAvx512 (ar : RArith α) (m slicea : Nat) (a om : Array α) : Array α :=
+  let z := ar.zero
+  let c := bitwCfgFma (V4.load z om 0)
+  mapV4x4 z (2 * ymmCount (m / 4) 2) (8 * (slicea / 64)) (fun _ => bitwReg ar c) a
+
+/-- `cplx_fftvec_bitwiddle_avx512` BEFORE commit 36935af (finding D9; not reachable from the driver): ymm `j` is the
+    lower (`j` even: `bitwCfgFma`) or upper (`j` odd: `bitwCfgAvx512Hi`) half of zmm `j/2` -/
+def cplxFftvecBitwiddleAvx512Old (ar : RArith α) (m slicea : Nat) (a om : Array α) : Array α :=
   let z := ar.zero
   let o := V4.load z om 0
   mapV4x4 z (2 * ymmCount (m / 4) 2) (8 * (slicea / 64))
